@@ -249,28 +249,34 @@ class VecCheck(Check):
     ocaml = dict(name="vec", extracted="vec_model.ml", glue=("glue_base.ml",))
     design_ref = "DESIGN.md section 6, Fixed-vector cluster (C06, C07)"
 
+    _memo = (None, None)
+
     def normalize(self, case, obs):
         # prefix a summary word (the set of step outcomes seen) so that the evidence groups observations by kind;
         # the oracle ignores it.  Crash / hang / protocol observations are left alone.
+        # (the framework normalises the implementation's and the model's line one after the other: one-entry memo)
+        if obs == self._memo[0]:
+            return self._memo[1]
         if not obs or obs.startswith(("CRASH", "HANG", "OTHER", "PROTOCOL", "BADCASE", "MODEL-", "k=")):
-            return obs
-        kinds = sorted(set(t[:2] if t.startswith(("NA", "E(")) else t[:1] for t in obs.split(" ")))
-        return "k=" + "".join(kinds) + " " + obs
+            r = obs
+        else:
+            kinds = set()
+            for t in obs.split(" "):
+                kinds.add(t[:2] if t[0] in "NE" else t[0])
+            r = "k=" + "".join(sorted(kinds)) + " " + obs
+        self._memo = (obs, r)
+        return r
 
     def nontrivial(self, case, mobs, iobs):
         # some object held at least one element at some step
         return re.search(r",s[1-9]", iobs) is not None
 
     def signature(self, case, mobs, iobs):
-        w = case.split()
-        toks = [t for t in iobs.split() if not t.startswith("k=")]
-        last = []
-        for o, t in list(zip(w[1:], toks))[-2:]:
-            last.append((o.split(",")[0], "!" in o, t.split(":")[0][:1]))
-        sizes = re.findall(r"c(\d+),s(\d+)", iobs)
-        mx = max([int(s) for _, s in sizes], default=0)
-        full = any(c == s for c, s in sizes)
-        return (w[0], tuple(last), min(mx, 4), full, "MF" in iobs)
+        # variant, the last two (operation, fault plan?, outcome) pairs, outcome kinds of the whole case, moved-from object seen?
+        w = case.split(" ")
+        toks = iobs.split(" ")
+        last = tuple((o.split(",", 1)[0], "!" in o, t[:1]) for o, t in zip(w[-2:], toks[-2:]))
+        return (w[0], last, toks[0], "MF" in iobs)
 
     def shrink(self, case):
         w = case.split()
